@@ -5,6 +5,7 @@ Template = list of parts
     ('h', k, cls)                 hole of k bytes of class cls
     ('o', tagname, 'attr text')   opening tag   ds + tagname [+ ' ' + attr text] + de
     ('c', tagname)                closing tag   ds + '/' + tagname + de
+    ('x', 'raw tag body')         malformed tag ds + raw + de : the reference treats it as plain text
 
 Hole classes (relative to the delimiters of the template):
     any   every valid UTF-8 string (may contain delimiter characters: only for templates whose oracle does not depend on structure)
@@ -59,6 +60,10 @@ def render(ctx, tpl, ds, de):
         elif p[0] == 'c':
             src += list(ds) + [47] + list(p[1].encode()) + list(de)
             parts.append(dict(kind='close', name=p[1], start=st, end=len(src)))
+        elif p[0] == 'x':
+            # a malformed tag (quote or '=' right after a closing quote, value-less '=' ...): plain text for the reference
+            src += list(ds) + list(p[1].encode()) + list(de)
+            parts.append(dict(kind='lit', start=st, end=len(src)))
         else:
             raise KeyError(p)
     return src, parts
@@ -177,7 +182,7 @@ def evaluate(src, parts, cfg):
     def unwrap_extents(e):
         """C11: tags alone on their lines, >= 2 lines between them -> the four lines; else None (left untouched)"""
         o, c = e['open'], e['close']
-        os_, oe = line_bounds(src, o['start'])
+        os_, oe = line_bounds(src, o['end'] - 1)   # a tag may span several lines: the opening wrapper line follows the line on which it ends
         cs, ce = line_bounds(src, c['start'])
         if oe >= cs:  # same line
             return None
